@@ -23,7 +23,8 @@ RULE = ("history: a first 'create' followed by up to 14 (quick) / 26 (thorough) 
         "scale_factor(scalar/vector, negative allowed, override T/F), shift_value(scalar/vector, override T/F), "
         "revert_scaling, shuffle, move_boundaries_to_front, split_labels, split_pieces(p incl. 0, 1, out of range), "
         "split_without_labels, remove_samples (distinct in-range indices / one out-of-range index among them), "
-        "concatenate (any two pool members incl. itself), copy, remove_labels}; operands are pool members chosen by index. "
+        "concatenate (any two pool members incl. itself), copy, remove_labels}; operands are pool members chosen by a drawn index "
+        "(3 of 4 draws skip empty members; revert prefers scaled members). "
         "After every operation every live DataSet is matched against its model entry. Non-trivial = at least one "
         "revert_scaling was executed on a non-empty scaled DataSet whose lineage, while scaled, went through a "
         "sample-moving operation (shuffle / move_boundaries_to_front / split_* / remove_samples / concatenate / "
@@ -1079,6 +1080,6 @@ def selftest():
 
 
 SUBS = [
-    Sub(SUBN, history_strategy, run_history, dict(quick=12000, thorough=150000),
-        budget_s=dict(quick=45, thorough=540), fixed_cases=fixed_cases),
+    Sub(SUBN, history_strategy, run_history, dict(quick=24000, thorough=250000),
+        budget_s=dict(quick=40, thorough=520), fixed_cases=fixed_cases),
 ]
